@@ -154,6 +154,7 @@ func (m *Machine) appendOp(st, tt types.Type, s, t Agg) Value {
 	if nc*es > m.cfg.MaxAlloc {
 		m.unsupported("append growth to %d elements too large for the engine", nc)
 	}
+	m.allocEvent("append beyond capacity (growslice) []" + et.String())
 	b := m.allocObj(et, nc, "append growth []"+et.String())
 	if sl > 0 {
 		m.copyBytes(m.ptr(b), s[0].(*Term), sl*es)
